@@ -69,6 +69,67 @@ def classOf (pre : Sys) (op : Op) : String :=
   if clsStaleGlobal pre then "stale-global"
   else if clsMigrateRenew pre.st op then "migrate-renew" else "none"
 
+/-! ### C09: which data models may a request change -/
+def authorisedFor (pre : State) (op : Op) (d : Bytes) : Bool :=
+  let ownerOrRw (sigDid : Did) : Bool :=
+    match pre.getMeta d with
+    | none => true
+    | some m => m.owner = sigDid || m.readwriteDids.contains sigDid
+  let ownerOnly (sigDid : Did) : Bool :=
+    match pre.getMeta d with
+    | none => true
+    | some m => m.owner = sigDid
+  match op with
+  | .store m => m.p.dataId = d && m.sigValid && m.sigDid = m.p.owner && ownerOrRw m.sigDid
+  | .terminate _ _ _ dd sv sd => dd = d && sv && ownerOrRw sd
+  | .renew _ _ sv sd _ _ data => data.contains d && sv && ownerOnly sd
+  | .perm _ _ ow dd _ _ sv => dd = d && sv && ownerOnly ow
+  -- consequences of an accepted request, scheduled expiry and automatic rollback are not requests
+  | .complete .. => true
+  | .cancel .. => true
+  | .end_ => true
+  | _ => false
+
+def changedMetas (pre post : State) : List Bytes :=
+  ((pre.metas.map (·.dataId)) ++ (post.metas.map (·.dataId))).eraseDups.filter (fun d => pre.getMeta d ≠ post.getMeta d)
+
+/-! ### C10: who may act -/
+def nodeActs (s : State) (creator provider : Addr) : Bool :=
+  provider = creator || (match s.getNode provider with
+    | some n => n.txAddresses.contains creator
+    | none => false)
+
+/-- accepted messages whose actor is not entitled to act for the object it touched -/
+def actorViolations (pre : State) (op : Op) : List String :=
+  match op with
+  | .cancel c p oid =>
+    match pre.getOrder oid with
+    | some o =>
+      if o.creator = c then []
+      else if p = o.provider && nodeActs pre c p && (o.creator = p || nodeActs pre o.creator p) then []
+      else [s!"cancel-order{oid}-by{c}-via{p}"]
+    | none => []
+  | .complete c p oid _ _ _ =>
+    match pre.getOrder oid with
+    | some o =>
+      (match getOrderShardBySP pre o p with
+       | some sh => if sh.sp = p && nodeActs pre c p then [] else [s!"complete-shard{sh.id}-by{c}"]
+       | none => [s!"complete-order{oid}-no-shard-of{p}"])
+    | none => []
+  | .store m =>
+    -- the owner's payment address is charged only when the request comes from the gateway the
+    -- owner-signed proposal names (or one of its own addresses) or from an account bound to the owner
+    if m.p.paymentDid ≠ 0 then
+      (if pre.paymentAddress m.p.paymentDid = some m.creator then [] else ["store-sponsor-not-submitter"])
+    else if creatorBound pre m.creator m.p.owner then []
+    else if m.msgProvider = m.p.provider && nodeActs pre m.creator m.p.provider then []
+    else [s!"store-charged-owner-by{m.creator}-claiming{m.msgProvider}-named{m.p.provider}"]
+  | .ready c p oid =>
+    match pre.getOrder oid with
+    | some o => if p = o.provider && nodeActs pre c p then [] else [s!"ready-order{oid}-by{c}"]
+    | none => []
+  | _ => []
+
 def checkState (e : Env) (s : State) : List (String × String) :=
   (violators e s).filterMap (fun (p, c, recs) => if recs.isEmpty then none else some (p, s!"clause={c} cls=genesis rec={recs}"))
 
@@ -85,6 +146,13 @@ def checkStep (e : Env) (pre : Sys) (op : Op) (res : Res) (post : Sys) : List (S
    | .hang => [("C02", s!"clause=hang cls={match (step e pre op).1 with | .hang => "model-predicted" | _ => "unpredicted"}")]
    | .panic => [("C02", s!"clause=blocker-panic cls={cls}")]
    | _ => []) ++
+  -- C09: every data model changed by an accepted request must be one the request is authorised for
+  (if res = .ok then
+    ((changedMetas pre.st post.st).filter (fun d => !authorisedFor pre.st op d)).map
+      (fun d => ("C09", s!"clause=unauthorisedChange cls={if (match op with | .store m => containsB m.p.commitId m.p.dataId && (pre.st.getMeta m.p.dataId).isSome | _ => false) then "commit-embeds-dataid" else "none"} rec=meta{d.take 8}"))
+   else []) ++
+  -- C10: the actor of an accepted message must be entitled to act for what it touched
+  (if res = .ok then (actorViolations pre.st op).map (fun v => ("C10", s!"clause=actor cls={match op with | .cancel .. => "cancel-claimed-provider" | _ => "none"} rec={v}")) else []) ++
   -- C17: a binding was created although the signed proof message does not name the DID
   (match op, res with
    | .binding m, .ok => if m.proofNamesDid then [] else [("C17", "clause=proofNamesDid cls=unbound-message")]
